@@ -37,13 +37,17 @@ struct Agent {
 	bool *unexpected_terminal;
 	bool lenient = false;      // ignore unknown conversion characters instead of reporting an error (both kinds of agent exist)
 	bool clamp_output = false; // for inputs with astronomically large widths: expand at most 1000 pad characters (the parse is what is under test)
+	bool en_locale = false;    // hand do_printf_ints the locale_options of an en_US-like locale (".", ",", groups of 3) instead of the default ones
 	frg::expected<frg::format_error> operator()(char c) { sink_->append(c); return frg::success; }
 	frg::expected<frg::format_error> operator()(const char *c, size_t n) { sink_->append(c, n); return frg::success; }
 	frg::expected<frg::format_error> operator()(char t, frg::format_options opts, frg::printf_size_mod szmod) {
 		if(clamp_output) { if(opts.minimum_width > 1000) opts.minimum_width = 1000; if(opts.precision && *opts.precision > 1000) opts.precision = 1000; }
 		switch(t) {
 		case 'c': case 'p': case 's': frg::do_printf_chars(*sink_, t, opts, szmod, vsp_); break;
-		case 'd': case 'i': case 'o': case 'x': case 'X': case 'b': case 'B': case 'u': frg::do_printf_ints(*sink_, t, opts, szmod, vsp_); break;
+		case 'd': case 'i': case 'o': case 'x': case 'X': case 'b': case 'B': case 'u':
+			if(en_locale) frg::do_printf_ints(*sink_, t, opts, szmod, vsp_, frg::locale_options(".", ",", "\3"));
+			else frg::do_printf_ints(*sink_, t, opts, szmod, vsp_);
+			break;
 		default: *unexpected_terminal = true; if(lenient) break; return frg::format_error::agent_error; // a strict agent reports the unknown conversion, a lenient one ignores it
 		}
 		if(sink_->overflowed) return frg::format_error::agent_error;
@@ -83,7 +87,7 @@ struct ExactVaList {
 struct FriggResult { bool completed = false; bool panicked = false; bool agent_error = false; bool unexpected_terminal = false; std::string out, panic; };
 
 // fmt must point to a NUL-terminated string in a GuardedBuf (exact size)
-inline FriggResult run_frigg(const char *fmt, const std::vector<uint64_t> &slots, bool clamp_output = false, bool lenient = false) {
+inline FriggResult run_frigg(const char *fmt, const std::vector<uint64_t> &slots, bool clamp_output = false, bool lenient = false, bool en_locale = false) {
 	FriggResult r;
 	ExactVaList ev(slots);
 	frg::va_struct vs;
@@ -94,7 +98,7 @@ inline FriggResult run_frigg(const char *fmt, const std::vector<uint64_t> &slots
 	vs.arg_list = arg_list;
 	RecSink sink;
 	try {
-		auto res = frg::printf_format(Agent{&sink, &vs, &r.unexpected_terminal, lenient, clamp_output}, fmt, &vs);
+		auto res = frg::printf_format(Agent{&sink, &vs, &r.unexpected_terminal, lenient, clamp_output, en_locale}, fmt, &vs);
 		r.completed = true;
 		r.agent_error = !res;
 	} catch(const PanicStop &p) { r.panicked = true; r.panic = p.msg; }
